@@ -27,7 +27,7 @@ def run(tier, seed, replay=None):
     from splipy.utils import section_from_index
     from splipy.io.ofoam import OpenFOAM
     rng = random.Random(seed)
-    reps = 30 if tier == 'quick' else 400
+    reps = 70 if tier == 'quick' else 400
     dist = {'op': {}, 'pardim': {}, 'kind': {}, 'patches': {}, 'order': {}}
     evals = 0
     nontriv = set()
